@@ -60,6 +60,13 @@ def gen_session(r, tier, force=None):
                 exact=int(r.random() < 0.15), hlines=hl, header=header,
                 pointer=r.choice(['', '', '>', '=>']), marker=r.choice(['', '', '*', '+']),
                 ellipsis=r.choice(['', '', '..', '~', '...']), prompt=r.choice(['', '', 'Q: ', '$ ']))
+    if lines and (force == 'fit' or r.random() < 0.35):
+        # lines exactly as wide as the text area of THIS window (window - pointer - marker - 1), one less, one more
+        tw = opts['cols'] - len(opts['pointer'] or '▌') - len(opts['marker'] or '┃') - 1
+        for dw in r.sample([0, 0, -1, 1], r.randint(1, 3)):
+            lines[r.randrange(len(lines))] = (r.choice(['ab', 'foo ', 'x', 'fit-']) * 90)[:max(1, tw + dw)].rstrip(' ') .ljust(max(1, tw + dw), 'z')
+        if r.random() < 0.3 and not opts['header']:
+            opts['header'] = [('H' * 90)[:tw]]
     nsteps = r.randint(3, 14 if tier == 'quick' else 60)
     steps = []
     for _ in range(nsteps):
@@ -227,7 +234,7 @@ def drv_screens(tier, seed, ctx):
     from vcheck import evaluate
     n = 48 if tier == 'quick' else 700
     r = random.Random(seed * 15485863 + 3)
-    scs = [gen_session(r, tier, force='input' if i < 6 else None) for i in range(n)]
+    scs = [gen_session(r, tier, force='input' if i < 6 else 'fit' if i < 12 else None) for i in range(n)]
     notes = []
 
     def work(sc):
